@@ -27,6 +27,10 @@ def get_literal_expr(obj: object) -> Optional[str]:
     try:
         name = BUILTIN_TO_NAME[obj]
     except (KeyError, TypeError):
+        name = None
+
+    # dict lookup compares by equality, but Decimal('1') == Fraction(1) == SomeIntEnum(1) == True
+    if name is None or NAME_TO_BUILTIN[name] is not obj:
         try:
             return _get_complex_literal_expr(obj)
         except _CannotBeRenderedError:
